@@ -1,6 +1,7 @@
 package sx
 
 import (
+	"reflect"
 	"fmt"
 	"strconv"
 	"go/types"
@@ -460,8 +461,106 @@ func registerModels(P *Program) {
 	registerExtraModels(P)
 }
 
+// wireCopy is the structural model of a JSON round trip (json.Marshal at the sender, json.Unmarshal into
+// a fresh value at the receiver) for plain structs: it follows the struct tags read from the program's
+// types - unexported fields and fields tagged json:"-" do not travel and arrive as zero values - and copies
+// pointers, maps, slices and big integers deeply. gabi's big.Int refuses negative numbers in its text
+// encodings: *failed is set. Types with their own (Un)MarshalJSON are not modelled (fail closed).
+func (ex *Exec) wireCopy(v Value, t types.Type, failed **smt.Term) Value {
+	if isBigIntType(t) {
+		b, ok := v.(BigVal)
+		if !ok {
+			ex.unsupported("wire copy of %T as big integer", v)
+		}
+		*failed = smt.Or(*failed, smt.Lt(b.I, smt.I64(0)))
+		return BigVal{I: b.I, G: b.G, E: b.E, Factors: b.Factors}
+	}
+	if n, ok := types.Unalias(t).(*types.Named); ok && n.Obj().Pkg() != nil && n.Obj().Name() == "Hash" && strings.HasSuffix(n.Obj().Pkg().Path(), "/revocation") {
+		// revocation.Hash travels as the text form of its bytes: value preserving
+		return ex.wireCopy(v, t.Underlying(), failed)
+	}
+	if n, ok := types.Unalias(t).(*types.Named); ok && n.Obj().Pkg() != nil {
+		for _, m := range []string{"UnmarshalJSON", "MarshalJSON"} {
+			for _, recv := range []types.Type{t, types.NewPointer(t)} {
+				if obj, _, _ := types.LookupFieldOrMethod(recv, true, n.Obj().Pkg(), m); obj != nil {
+					if _, isFunc := obj.(*types.Func); isFunc {
+						ex.unsupported("wire copy of %s, which has its own %s", t, m)
+					}
+				}
+			}
+		}
+	}
+	switch u := t.Underlying().(type) {
+	case *types.Basic:
+		return v
+	case *types.Pointer:
+		p := v.(Pointer)
+		if p.C == nil {
+			return Pointer{}
+		}
+		return Pointer{C: ex.cellOf(ex.wireCopy(ex.load(p.C), u.Elem(), failed))}
+	case *types.Struct:
+		sv := v.(*Struct)
+		out := &Struct{F: make([]Value, len(sv.F))}
+		for i := range sv.F {
+			f := u.Field(i)
+			tag := reflect.StructTag(u.Tag(i)).Get("json")
+			name := strings.Split(tag, ",")[0]
+			if !f.Exported() || name == "-" {
+				out.F[i] = ex.zero(f.Type())
+				continue
+			}
+			out.F[i] = ex.wireCopy(sv.F[i], f.Type(), failed)
+		}
+		return out
+	case *types.Slice:
+		sl := v.(Slice)
+		if sl.A == nil {
+			return Slice{}
+		}
+		out := ex.makeSlice(u.Elem(), sl.Len, sl.Len)
+		for i := 0; i < sl.Len; i++ {
+			ex.store(out.A.E[i], ex.wireCopy(ex.load(sl.A.E[sl.Off+i]), u.Elem(), failed))
+		}
+		if sl.Off == 0 && sl.Len == len(sl.A.E) {
+			// byte strings that stand for modelled objects (signed messages, digests, encodings) keep their meaning
+			if sm, ok := ex.signedMsgs[sl.A]; ok {
+				ex.signedMsgs[out.A] = sm
+			}
+			if d, ok := ex.digests[sl.A]; ok {
+				ex.digests[out.A] = d
+			}
+			if b, ok := ex.blobs[sl.A]; ok {
+				ex.blobs[out.A] = b
+			}
+			if b, ok := ex.derBlobs[sl.A]; ok {
+				ex.derBlobs[out.A] = b
+			}
+		}
+		return out
+	case *types.Map:
+		m, _ := v.(*Map)
+		if m == nil {
+			return (*Map)(nil)
+		}
+		out := &Map{}
+		for _, e := range m.E {
+			out.E = append(out.E, &MapEntry{K: e.K, C: ex.cellOf(ex.wireCopy(ex.load(e.C), u.Elem(), failed))})
+		}
+		return out
+	}
+	ex.unsupported("wire copy of %s", t)
+	return nil
+}
+
 func (ex *Exec) primExt(fn *ssa.Function, args []Value) (Value, bool) {
 	switch fn.Name() {
+	case "vpxWireProofD", "vpxWire":
+		// (in *T) (*T, bool): the value as it arrives after a JSON round trip; false if encoding fails
+		failed := smt.False
+		out := ex.wireCopy(args[0], fn.Signature.Params().At(0).Type(), &failed)
+		ex.stubs["JSON transport is a structural copy that follows the struct tags of the current source (fields tagged json:\"-\" and unexported fields do not travel; negative big integers are refused); byte-level encoding is not modelled"] = true
+		return Tuple{out, smt.Not(failed)}, true
 	case "vpxSetECDSA":
 		id, _ := term(args[2]).ConstInt64()
 		mk := func(kind string) Value {
